@@ -139,7 +139,8 @@ class Gen:
         if roll < 0.5 or (required and roll < 0.6):
             return self.spec(depth - 1), {}
         extra = {}
-        items = [self.spec(depth - 1) for _ in range(rng.randint(1, 3))]
+        # (an empty tuple is legal in the DSL: every item is then an additional item)
+        items = [self.spec(depth - 1) for _ in range(rng.choice([0, 1, 1, 2, 2, 3]) if rng.random() < 0.3 else rng.randint(1, 3))]
         pick = rng.random()
         if pick < 0.3:
             extra["additionalItems"] = False
